@@ -18,14 +18,17 @@ def register(OPS, drv):
             h = HandlerMultiplexer.getHandler(selector, "", None, config)
         except Exception as e:  # noqa
             return {"handler": None, "exc": type(e).__name__, "entries": None}
-        out = {"handler": type(h).__name__, "exc": None, "entries": None}
+        # a chaining handler (ZIP.ZIPHandler) delegates to the handler it found inside the archive
+        out = {"handler": type(getattr(h, "handler", None) or h).__name__, "outer": type(h).__name__, "exc": None, "entries": None}
         try:
             h.getentry()
             h.prepare()
+            out["handler"] = type(getattr(h, "handler", None) or h).__name__
             if h.isdir():
                 out["entries"] = [dump_entry(e) for e in h.getdirlist()]
         except Exception as e:  # noqa
             out["exc"] = type(e).__name__
+            out["handler"] = type(getattr(h, "handler", None) or h).__name__
         return out
 
     def op_gm_world(job):
